@@ -10,7 +10,7 @@ BASELINE_OFF = ("d=$(mktemp -d /tmp/cproc-base.XXXXXX) && make -s -C /repo objdi
 CHECKS = {
  "C15": ("model_checking",
          "TLA+ spec of AVL case index + comparison ladder (Tree.tla) model-checked by TLC; every transition of TLC's state graph replayed into /repo/tree.c",
-         "Tree.tla transcribes treeinsert/balance/rot and casesearch's ladder; TLC checks BST/balance/exact heights/log depth/new-flag and ladder = declarative switch dispatch on all histories over a 10-key boundary universe at a scaled carrier width; each (shape,key) transition is then executed by the real tree.c and the full concrete shape compared.",
+         "Tree.tla transcribes treeinsert/balance/rot and casesearch's ladder; TLC checks BST/balance/exact heights/log depth/new-flag and ladder = declarative switch dispatch on all histories over a 10-key boundary universe at a scaled carrier width; each (shape,key) transition is then executed by the real tree.c and the full concrete shape compared. Flow C: generated switches (all integer types, up to 5000 cases, shuffled, negative and >2^31/2^63 constants, nested in loops/switches) are compiled; Switch.tla judges the ladder read back from the IL (search order, one node per case, logarithmic depth, targets) and computes the case C prescribes for every probe, which the executed IL must select; duplicate case/default labels must be rejected.",
          "trusted: the order- and low-half-preserving map from the scaled carrier to 64-bit keys; ctree.c dump routine; TLC",
          "DESIGN.md §5 C15"),
 }
